@@ -52,6 +52,11 @@ PROFILES = {
                "blocking_root": True, "flags": True, "max_regions": 2, "single_completion_region": True},
     "copy":  {"history": True, "defer": True, "completion": True, "p_sub": 0.5, "pseudo": True, "max_depth": 1},
     "pseudo": {"pseudo": True, "history": True, "p_sub": 0.6, "max_depth": 1},
+    # feature combinations: every property additionally runs a few machines that mix what the other profiles keep apart
+    # (deferral next to blocking states and pseudo states, completion inside submachines with history, orthogonal regions
+    # at two levels), with behaviours that submit events
+    "mix":   {"completion": True, "defer": True, "history": True, "blocking": True, "pseudo": True, "plans": True,
+              "p_sub": 0.5, "max_depth": 2, "max_regions": 2},
     # C14: everything every front-end can write (no Defer functor action); Kleene / base-class triggers, completion rows,
     # explicit entry / fork / entry and exit points, history, state-local and machine-level internal tables
     "frontend": {"pseudo": True, "history": True, "completion": True, "p_sub": 0.45, "max_depth": 2, "kleene": True,
@@ -276,6 +281,9 @@ class Gen:
                 kind = rng.random()
                 if f["throws"] and kind < 0.3:
                     plan.append((idx, ("throw",)))
+                    # the behaviour invoked next is exception_caught: let it submit an event now and then
+                    if rng.random() < 0.4 and not any(i == idx + 1 for i, _ in plan):
+                        plan.append((idx + 1, (rng.choice(["proc", "enq"]), rng.choice(self.events), rng.randint(0, 99))))
                 elif kind < 0.7:
                     plan.append((idx, ("proc", rng.choice(self.events), rng.randint(0, 99))))
                 else:
